@@ -199,4 +199,37 @@ def rewardVerify (w : Win) (parentNumber : Nat) (total lockOcc : Nat) (outputs :
         | [] => none   -- `expect("cellbase should have output")` (unreachable when total > 0)
         | o :: _ => some (if o.2 then .ok else .invalidRewardTarget)
 
+/-! ### specification of the proposer reward (declarative; not used by the driver)
+
+The reading of the property: a committed transaction's proposer share goes to the *earliest*
+block, inside the commit's proposal window, that proposed it (itself or through an uncle). -/
+
+/-- some block with number in `[lo, hi)` proposed `id` (own proposals or its uncles') -/
+def proposedIn (chain : List Blk) (lo hi : Nat) (id : Nat) : Bool :=
+  (List.range' lo (hi - lo)).any fun q => (blkAt chain q).props.contains id
+
+/-- the commits of block `c` whose proposer share belongs to block `t`: `t` proposed the id and no
+block in `[max (c − w_far) 1, t)` — the part of `c`'s proposal window before `t`, genesis
+excluded — did -/
+def specPaidAt (w : Win) (chain : List Blk) (t c : Nat) : List Paid :=
+  ((blkAt chain c).commitIds.zip (blkAt chain c).fees).filterMap fun cf =>
+    if (blkAt chain t).props.contains cf.1 && !(proposedIn chain (max (c - w.far) 1) t cf.1)
+    then some ⟨c, cf.1, cf.2⟩ else none
+
+/-- all fees whose proposer share belongs to block `t`: commits in `t + w_close ..= t + w_far`,
+listed from the latest block to the earliest (the order in which the code adds them) -/
+def specPaid (w : Win) (chain : List Blk) (t : Nat) : List Paid :=
+  (List.range' (t + w.close) (w.far - w.close + 1)).reverse.flatMap (specPaidAt w chain t)
+
+/-- the two-phase commit rule for one commit: `id`, committed in block `c`, was proposed by a block
+with number in `[max (c − w_far) 1, c − w_close]` -/
+def proposedInWindow (w : Win) (chain : List Blk) (c id : Nat) : Bool :=
+  proposedIn chain (max (c - w.far) 1) (c - w.close + 1) id
+
+/-- `t` is the earliest proposer of `id` inside the proposal window of a commit in block `c`:
+`t ∈ [max (c − w_far) 1, c − w_close]`, `t` proposed `id`, and no earlier block of the window did -/
+def isEarliestProposer (w : Win) (chain : List Blk) (c id t : Nat) : Bool :=
+  decide (max (c - w.far) 1 ≤ t) && decide (t ≤ c - w.close) &&
+  (blkAt chain t).props.contains id && !(proposedIn chain (max (c - w.far) 1) t id)
+
 end CkbVerif.Reward
